@@ -29,6 +29,8 @@ func main() {
 		os.Exit(mdnsviewMain(os.Args[2:]))
 	case "avahistep":
 		os.Exit(avahistepMain(os.Args[2:]))
+	case "hubstep":
+		os.Exit(hubstepMain(os.Args[2:]))
 	case "connstep":
 		os.Exit(connstepMain(os.Args[2:]))
 	default:
